@@ -1,7 +1,7 @@
 (* C18 correspondence: how one observed run of the implementation (boundary log of the Go harness) is
    compared with the model.  Used by the generated run/C18/cases files.  The mux replay ([replay]) is proved sound for the mux
    LTS in proof/C18_Replay.v (props/C18.v, the C18_accepted_history theorems). *)
-From Hy Require Import lib.Harness model.C18_Inbounds.
+From Hy Require Import lib.Harness model.C18_Inbounds model.C18_Relay.
 From Coq Require Import ZArith.
 Local Open Scope N_scope.
 
@@ -198,6 +198,32 @@ Fixpoint replay (m : c18_ms) (l : list stim) : bool :=
       end
   end.
 
+(* ---------- relay phase on scripted conns ---------- *)
+(* slice of a payload: the generated cases name the bytes of an observed Read / Write this way *)
+Definition sl (s : list byte) (off n : N) : list byte := firstn (N.to_nat n) (skipn (N.to_nat off) s).
+
+(* The log of the two scripted conns in its global order, as a run of the relay LTS (model/C18_Relay.v) of the
+   code as it is: io.Copy's loop, one buffer per direction.  pre = bytes the inbound had read beyond the header
+   part before it dialled: cachedConn hands them to the client->upstream loop in its first Read (they are
+   fewer than the copy buffer holds), before anything the conn itself delivers.  Every goroutine has ended
+   when the harness takes the log, so both loops must have left. *)
+Definition relay_ok (pre : list byte) (tr : list rl_act) : bool :=
+  let tr' := match pre with
+             | [] => tr
+             | _ => let '(b, _, r) := c18_pre_read c18_copy_buf (mkPre pre []) in
+                    match pr_buf r with
+                    | [] => RlRead DUp c18_copy_buf b RN :: tr
+                    | _ => []     (* more than one buffer of read-ahead: not produced by bufio's 4096 bytes *)
+                    end
+             end in
+  match tr' with
+  | [] => false
+  | _ => match rl_run KIoCopy false rl_init tr' with
+         | Some s => rl_is_ret (rl_pcU s) && rl_is_ret (rl_pcD s)
+         | None => false
+         end
+  end.
+
 (* ---------- cases ---------- *)
 Inductive case :=
 | CSocks (auth : option (list byte * list byte)) (dudp dial udp : bool) (s : c18_script) (obs : list osev)
@@ -205,7 +231,8 @@ Inductive case :=
         (s : c18_script) (obs : list c18_hev)
 | CRead (buf : list byte) (s : c18_script) (sizes : list N) (obs : list (list byte * bool))
 | CMux (l : list stim)
-| CMuxActs (acts : list c18_act) (conns : list N).    (* an explicit schedule of atomic sections *)
+| CMuxActs (acts : list c18_act) (conns : list N)     (* an explicit schedule of atomic sections *)
+| CRelay (pre : list byte) (tr : list rl_act).
 
 Definition check (c : case) : bool :=
   match c with
@@ -224,6 +251,7 @@ Definition check (c : case) : bool :=
       | Some m => N_list_eqb (map conn_code (m_conns m)) conns
       | None => false
       end
+  | CRelay pre tr => relay_ok pre tr
   end.
 
 Definition mismatches (l : list case) : list nat := mism_from check 0 l.
